@@ -200,7 +200,7 @@ func c12WideGamut(css string) bool {
 var c12T0 = time.Now()
 
 func runC12(c *Check) {
-	c.Rule = "style sheets over a generated grammar: 37 selectors (type/class/id/attribute/pseudo, combinators, :is/:where/:not/:has, lists, deliberately unknown selectors) x ~180 declaration blocks in 7 families (colour notations, margin/padding/inset/border/border-radius/font/background shorthand-longhand interleavings, !important, duplicates and unknown-value fallbacks, custom properties, calc trees, numeric forms, gradients, transforms) as single rules, as interacting rule pairs within a family, as at-rule sandwiches W1{R} W2{R'} W1{R''} over 12 block wrappers (layers, media, supports, container, nesting), under media conditions built from 19 width/feature atoms (both operand orders, ranges, min-/max-) with not/and/or/lists/nesting evaluated at 400px and 900px, nested with & in every position and wrapped in 16 at-rule contexts (@media true/false/print, @supports true/false/unknown, @layer, @container, nested); x {default, minify, minify-syntax, chrome100 lowering, safari11+firefox60 lowering}; oracle: Chrome 147 computes every element x ~100 properties x 2 viewport widths for input and output, which must be equal; @import graphs loaded natively by Chrome vs the bundle; distinct = distinct outputs"
+	c.Rule = "style sheets over a generated grammar: 37 selectors (type/class/id/attribute/pseudo, combinators, :is/:where/:not/:has, lists, deliberately unknown selectors) x ~180 declaration blocks in 7 families (colour notations, margin/padding/inset/border/border-radius/font/background shorthand-longhand interleavings, !important, duplicates and unknown-value fallbacks, custom properties, calc trees, numeric forms, gradients, transforms) as single rules, as interacting rule pairs within a family, as at-rule sandwiches W1{R} W2{R'} W1{R''} over 12 block wrappers (layers, media, supports, container, nesting), under media conditions built from 19 width/feature atoms (both operand orders, ranges, min-/max-) with not/and/or/lists/nesting evaluated at 400px and 900px, nested with & in every position and wrapped in 16 at-rule contexts (@media true/false/print, @supports true/false/unknown, @layer, @container, nested); x {default, minify, minify-syntax, chrome100 lowering, safari11+firefox60 lowering}; oracle: Chrome 147 computes every element x ~100 properties x 2 viewport widths for input and output, which must be equal; @import graphs loaded natively by Chrome vs the bundle; distinct = distinct outputs; bare declarations inside nested conditional group rules under parents with pseudo-elements"
 	c.Assump = []string{"Chrome 147 (headless shell) is the cascade/value engine; other browsers are not evaluated", "for lowering targets, sheets using wide-gamut or relative colour syntax are only compared under non-lowering configurations (out-of-gamut lowering excluded)", "the 'understands less' clause is decided through the unknown selectors/values/at-rules in the alphabet, which Chrome itself drops"}
 	pool := NewScriptPool("chrome_worker.js")
 	defer pool.Close()
